@@ -918,6 +918,47 @@ Lemma R3_early_returns : forall run_seq,
          [witness_R3_pre; witness_R3_post].
 Proof. intro run_seq. repeat constructor. Qed.
 
+(* R6: a durably Failed continuous group of the plan: plan Failed, entry End, the executing block stays Running with
+   an unstarted sequence and a deferred group that never ran *)
+Lemma witness_R6_facts : forall run_seq,
+  pl_st witness_R6 = Running
+  /\ checks_failed (pl_cont witness_R6) = true
+  /\ recovery_entry run_seq witness_R6 = EEnd
+  /\ pl_st (fp_pln (fix_plan run_seq witness_R6)) = Failed
+  /\ fp_resumed (fix_plan run_seq witness_R6) = []
+  /\ no_running_block (fp_pln (fix_plan run_seq witness_R6)) = false
+  /\ (exists b s c, get_blk (fp_pln (fix_plan run_seq witness_R6)) 0 = Some b /\ bk_st b = Running
+                    /\ nth_error (bk_seqs b) 1 = Some s /\ sq_st s = NotStarted
+                    /\ bk_deferred b = Some c /\ ck_st c = NotStarted).
+Proof.
+  intro run_seq. repeat split; try (vm_compute; reflexivity).
+  eexists. eexists. eexists. vm_compute. repeat split; reflexivity.
+Qed.
+
+Lemma R6_refuted :
+  ~ (forall run_seq p, pl_st p = Running -> recovery_entry run_seq p = EEnd ->
+       no_running_block (fp_pln (fix_plan run_seq p)) = true).
+Proof.
+  intro H. specialize (H (fun s => s) witness_R6).
+  destruct (witness_R6_facts (fun s => s)) as (H1 & _ & H2 & _ & _ & H5 & _).
+  rewrite (H H1 H2) in H5. discriminate.
+Qed.
+
+(* R5: a Running sequence inside a finished block is not repaired: plan Completed (entry End) with a Running sequence *)
+Lemma witness_R5_facts : forall run_seq,
+  pl_st witness_R5 = Running
+  /\ recovery_entry run_seq witness_R5 = EEnd
+  /\ pl_st (fp_pln (fix_plan run_seq witness_R5)) = Completed
+  /\ fp_resumed (fix_plan run_seq witness_R5) = []
+  /\ no_running_sequence (fp_pln (fix_plan run_seq witness_R5)) = false
+  /\ (exists b s, get_blk (fp_pln (fix_plan run_seq witness_R5)) 0 = Some b /\ bk_st b = Completed
+                  /\ nth_error (bk_seqs b) 0 = Some s /\ sq_st s = Running
+                  /\ Forall (fun a => ac_st a = Completed) (sq_acts s)).
+Proof.
+  intro run_seq. repeat split; try (vm_compute; reflexivity).
+  eexists. eexists. vm_compute. repeat split; try reflexivity. repeat constructor.
+Qed.
+
 (* ------------------------------------------------------------------ the statements of props/Repair.v, assembled *)
 Lemma fix_action_spec_all :
   forall a : act,
